@@ -267,6 +267,86 @@ def touching_cases(rng, thorough):
                 cases.append("btw %s %d %s %d %s" % (b, sb, a, sa, used_for(rng, [a, b])))
     return cases
 
+
+# ---------------------------------------------------------------------------------------- shared-interval families
+# numbers the library holds with IDENTICAL isolating intervals: lp_algebraic_number_cmp then takes its "equal intervals"
+# branch (gcd of the defining polynomials, sign change of the gcd on the interval, reduction of BOTH polynomials, or the
+# bisect-away race).  Each member = main factor (its root is the number) x outside factors (roots outside the interval):
+# equal numbers with different polynomials, different numbers sharing an outside factor, different numbers with coprime
+# polynomials, rationals / dyadics hidden behind a polynomial, one of them exactly the mid point.
+def pmul(a, b):
+    r = [0] * (len(a) + len(b) - 1)
+    for i, x in enumerate(a):
+        for j, y in enumerate(b):
+            r[i + j] += x * y
+    return r
+
+
+# (lo, hi, main factors [(coeffs, tag)], outside factors)
+FAMILIES = [
+    (Fraction(5, 4), Fraction(3, 2),
+     [([-2, 0, 1], "sqrt2"), ([-7, 0, 4], "sqrt7/2"), ([-4, 3], "4/3"), ([-11, 8], "11/8 mid"), ([-21, 16], "21/16"),
+      ([-2, 0, 0, 1], "cbrt2"), ([-33, 0, 16], "sqrt33/4")],
+     [[-5, 1], [-3, 0, 1], [1, 1], [-1, 2]]),
+    (Fraction(1, 4), Fraction(1, 2),
+     [([-3, 8], "3/8 mid"), ([-1, 2, 1], "sqrt2-1"), ([-1, 3], "1/3"), ([-7, 16], "7/16"), ([-1, 2, 2], "(sqrt3-1)/2"),
+      ([1, -3, 0, 1], "cubic .347")],
+     [[-5, 1], [-2, 0, 1], [1, 1]]),
+    (Fraction(-3, 2), Fraction(-5, 4),
+     [([-2, 0, 1], "-sqrt2"), ([-7, 0, 4], "-sqrt7/2"), ([4, 3], "-4/3"), ([11, 8], "-11/8 mid"), ([2, 0, 0, 1], "-cbrt2")],
+     [[-5, 1], [-3, 0, 1], [-1, 1]]),
+    (Fraction(2), Fraction(5, 2),
+     [([-5, 0, 1], "sqrt5"), ([-9, 4], "9/4 mid"), ([-7, 3], "7/3"), ([-17, 8], "17/8"), ([-21, 0, 4], "sqrt21/2")],
+     [[-5, 1], [-2, 0, 1], [1, 1]]),
+]
+
+
+def family_tokens(rng, fam, per_main=3):
+    """[(token, main index, degree)]: for every main factor the bare polynomial and products with outside factors"""
+    lo, hi, mains, outs = fam
+    res = []
+    for i, (m, _) in enumerate(mains):
+        variants = [[]] + [[o] for o in outs] + [[outs[0], outs[1]]]
+        rng.shuffle(variants)
+        chosen = [[]] + [v for v in variants if v][:per_main - 1]
+        if [outs[0]] not in chosen:
+            chosen[-1] = [outs[0]]              # the factor everybody shares
+        for v in chosen:
+            cs = m
+            for o in v:
+                cs = pmul(cs, o)
+            if cs[-1] < 0:
+                cs = [-c for c in cs]
+            res.append((alpha_token(cs, lo, hi), i, len(cs) - 1))
+    return res
+
+
+def family_cases(rng, thorough):
+    cases = []
+    for fam in FAMILIES:
+        lo, hi, mains, outs = fam
+        toks = family_tokens(rng, fam)
+        mid = (lo + hi) / 2
+        thirds = ["d:" + dy_str(mid), "P:" + dy_str(mid), "q:%d/%d" % ((lo + mid) / 2).as_integer_ratio(),
+                  "d:" + dy_str((mid + hi) / 2), "d:" + dy_str(lo), "P:" + dy_str(hi)] + [t for (t, _, _) in toks[:4]]
+        for (a, ia, da) in toks:
+            for (b, ib, db) in toks:
+                if a == b and not thorough:
+                    continue
+                p = 1.0 if thorough else (0.5 if ia == ib else 0.3)
+                if rng.random() < p:
+                    cases.append("cmp %s %s" % (a, b))
+                if rng.random() < p:
+                    cases.append("cmpt %s %s %s" % (a, b, rng.choice(thirds)))
+                if rng.random() < p * 0.3:
+                    cases.append("tri %s %s %s" % (a, b, rng.choice(thirds)))
+                if rng.random() < p * 0.3:
+                    cases.append("btw %s %d %s %d %s" % (a, rng.randint(0, 1) if ia != ib else 0, b,
+                                                          rng.randint(0, 1) if ia != ib else 0, used_for(rng, [a, b])))
+                if da + db <= 5 and rng.random() < p * 0.12:
+                    cases.append("%s %s %s %s" % (rng.choice(["add", "sub", "mul", "div"]), a, b, used_for(rng, [a, b])))
+    return cases
+
 # ---------------------------------------------------------------------------------------- cases
 def generate(rng, tier):
     cases = []
@@ -291,6 +371,8 @@ def generate(rng, tier):
     # --- algebraic-typed points at the end points of isolating intervals (the open/closed tie-break of
     #     lp_algebraic_number_cmp, equal hull ends in get_value_between)
     cases += touching_cases(rng, thorough)
+    # --- numbers held with IDENTICAL isolating intervals (the equal-intervals branch of lp_algebraic_number_cmp)
+    cases += family_cases(rng, thorough)
     # --- triples: members of equal groups mixed with neighbours, and random triples
     for _ in range(1500 if thorough else 350):
         if rng.random() < 0.4:
